@@ -28,7 +28,10 @@ GOENV = dict(os.environ, GOFLAGS="-mod=mod", GOPROXY="off", GOSUMDB="off", GOTOO
 # property -> (Lean property modules, harness subcommand present?)
 PROPS = {f"C{i:02d}": {"modules": [f"IclModel.Props.C{i:02d}"]} for i in range(1, 21)}
 # properties whose statement is assembled from the theorems of other property files
-PROPS["C01"]["modules"] += ["IclModel.Props.C01Rec", "IclModel.Props.C02", "IclModel.Props.C03"]
+PROPS["C01"]["modules"] += ["IclModel.Props.C01Rec", "IclModel.Props.C01Walk", "IclModel.Props.C02", "IclModel.Props.C03"]
+# the writer walk translated from writer.go = the record sequence the build / framing theorems speak about
+PROPS["C06"]["modules"] += ["IclModel.Props.C01Walk"]
+PROPS["C08"]["modules"] += ["IclModel.Props.C01Walk"]
 
 
 def sh(cmd, cwd=None, env=None, timeout=None):
